@@ -636,11 +636,18 @@ def opXf : P String := do
   | "movefield" => do
     let f ← pVal; let i ← pInt; let m ← pVal; let t ← pTable
     let hdr := t.headD []
-    let outhdr := pyInsert (hdr.filter (fun c => !Val.pyEq c f)) (some i) f
-    let spec := outhdr.filterMap (fun c => match c with | .str s => some (FSpec.name s) | _ => none)
-    match asindices hdr spec with
-    | .error e => pure (showOut (.fail [outhdr] e))
-    | .ok idx => pure (showOut (.ok (outhdr :: pickRows idx m (t.drop 1))))
+    -- by position (petl, since the repair of movefield on duplicate field names): the first field of that name moves,
+    -- every other field — also another one of the same name — stays
+    match hdr.findIdx? (fun c => Val.pyEq c f) with
+    | some fidx =>
+      let idx := moveFieldIdx hdr.length fidx i
+      pure (showOut (.ok (idx.map (padGet .none hdr) :: pickRows idx m (t.drop 1))))
+    | none =>
+      let outhdr := pyInsert hdr (some i) f
+      let spec := outhdr.filterMap (fun c => match c with | .str s => some (FSpec.name s) | _ => none)
+      match asindices hdr spec with
+      | .error e => pure (showOut (.fail [outhdr] e))
+      | .ok idx => pure (showOut (.ok (outhdr :: pickRows idx m (t.drop 1))))
   | "filldown" => do
     let fields ← pKey; let m ← pVal; let t ← pTable
     match t with
